@@ -85,6 +85,9 @@ type c11Config struct {
 	MaxList  int        `json:"max_list"`
 	Depth    int        `json:"depth"`
 	Restart  bool       `json:"restart"`
+	// EvalFull: also evaluate proposals (against the oracle) in states whose
+	// MaxLive slots are all in use; such a block is evaluated but not retained.
+	EvalFull bool `json:"eval_full"`
 }
 
 func (c *c11Config) name() string {
@@ -350,7 +353,7 @@ func (in *c11Inst) enabled(o c11Op) bool {
 	switch o.K {
 	case "new":
 		pb := in.parentOf(o.P)
-		if pb == nil {
+		if pb == nil || (!in.cfg.EvalFull && in.freeSlot() < 0) {
 			return false
 		}
 		pts := pb.ts
@@ -847,11 +850,11 @@ func c11BFS(r *ev.Run, cfg *c11Config, st *c11Stats, samples *[]c11Case, smu *sy
 // c11Timestamps: every comparison in the code and in the statement is between a
 // tx timestamp and bts-th / bts+th of some block (maxTSInDB is a maximum of
 // such sums), so the boundary points and their neighbours represent every cell.
-func c11Timestamps(blockTS, ths []int64) []int64 {
+func c11Timestamps(blockTS, ths []int64, deltas []int64) []int64 {
 	m := map[int64]bool{}
 	for _, b := range append([]int64{90}, blockTS...) {
 		for _, th := range ths {
-			for _, d := range []int64{-1, 0, 1} {
+			for _, d := range deltas {
 				m[b-th+d] = true
 				m[b+th+d] = true
 			}
@@ -880,7 +883,11 @@ func c11Timestamps(blockTS, ths []int64) []int64 {
 func c11Configs(r *ev.Run) []c11Config {
 	blockTS := []int64{100, 110, 120, 130}
 	ths := []int64{10, 50}
-	tss := c11Timestamps(blockTS, ths)
+	deltas := []int64{0, 1}
+	if r.Thorough() {
+		deltas = []int64{-1, 0, 1}
+	}
+	tss := c11Timestamps(blockTS, ths, deltas)
 	var out []c11Config
 	maxLive := r.Pick(2, 3)
 	depth := 20
@@ -898,15 +905,24 @@ func c11Configs(r *ev.Run) []c11Config {
 		for _, ts := range tss {
 			// normal group: thresholds may change between blocks (governance)
 			out = append(out, c11Config{Group: int(module.TransactionGroupNormal), Startup: "base-force-committed", Th0: th0,
-				Universe: []c11TxDef{{"x", ts}}, BlockTS: blockTS, BlockTH: ths, MaxLive: maxLive, MaxList: 2, Depth: depth, Restart: r.Thorough() || th0 == 10})
+				Universe: []c11TxDef{{"x", ts}}, BlockTS: blockTS, BlockTH: ths, MaxLive: maxLive, MaxList: 2, Depth: depth, Restart: true, EvalFull: r.Thorough()})
 		}
 	}
 	// patch group: the threshold of patch blocks is a constant in goloop
 	// (ConfigPatchTimestampThreshold); the root tracker uses tsc.Threshold().
 	for _, th0 := range ths {
-		for _, ts := range c11Timestamps(blockTS, []int64{10}) {
+		for _, ts := range c11Timestamps(blockTS, []int64{10}, deltas) {
 			out = append(out, c11Config{Group: int(module.TransactionGroupPatch), Startup: "raw-root", Th0: th0,
-				Universe: []c11TxDef{{"x", ts}}, BlockTS: blockTS, BlockTH: []int64{10}, MaxLive: maxLive, MaxList: 2, Depth: depth, Restart: true})
+				Universe: []c11TxDef{{"x", ts}}, BlockTS: blockTS, BlockTH: []int64{10}, MaxLive: maxLive, MaxList: 2, Depth: depth, Restart: true, EvalFull: r.Thorough()})
+		}
+	}
+	if r.Quick() {
+		// quick only: unfinalized chains of three blocks (two live + every proposal on top)
+		for _, th0 := range ths {
+			for _, ts := range tss {
+				out = append(out, c11Config{Group: int(module.TransactionGroupNormal), Startup: "base-force-committed", Th0: th0,
+					Universe: []c11TxDef{{"x", ts}}, BlockTS: blockTS, BlockTH: ths, MaxLive: 3, MaxList: 2, Depth: 3, Restart: false})
+			}
 		}
 	}
 	// two-transaction universes (interplay inside one list, partial Add failure)
@@ -919,7 +935,7 @@ func c11Configs(r *ev.Run) []c11Config {
 				}
 				out = append(out, c11Config{Group: int(module.TransactionGroupNormal), Startup: "base-force-committed", Th0: th0,
 					Universe: []c11TxDef{{"x", ts}, {"y", ts2}}, BlockTS: blockTS, BlockTH: ths, MaxLive: 2, MaxList: 2,
-					Depth: depth2, Restart: r.Thorough()})
+					Depth: depth2, Restart: r.Thorough(), EvalFull: r.Thorough()})
 			}
 		}
 	}
